@@ -80,7 +80,13 @@ def h_find_optimal(env):
     tabs = []
     for k in range(p.get("n_cons", 1)):
         scope = [x] + others[: 1 + (k % max(1, len(others)))] if others else [x]
-        rel, tab = fx.table_relation(env, "c%d" % k, scope, kinds)
+        make = None
+        if p.get("huge_ints") and not env.symbolic:
+            # integer-valued constraints (python ints, as an integer function or an integer table gives them) beyond 2**53 that
+            # differ by a few units: their exact values decide the optimum; a double cannot tell them apart
+            mag = env.choice("magnitude:c%d" % k, [2 ** 53, 2 ** 60, -(2 ** 62), 2 ** 70])
+            make = (lambda m: (lambda name: m + env.int(name, -3, 3)))(mag)
+        rel, tab = fx.table_relation(env, "c%d" % k, scope, kinds, make=make)
         cons.append(rel)
         tabs.append(tab)
     asg = {o.name: env.choice("val_" + o.name, list(o.domain)) for o in others}
@@ -122,7 +128,8 @@ def h_find_optimal(env):
 Contract(
     "relations.find_optimal", ["C06"], ["pydcop.dcop.relations:find_optimal", "pydcop.dcop.relations:assignment_cost"],
     h_find_optimal,
-    lambda tier: ([dict(n=1, kinds=("fin", "+inf", "-inf"), n_cons=1), dict(n=2, n_cons=2), dict(n=2, kinds=("fin", "+inf"), n_cons=1), dict(n=3, n_cons=1, vkinds=["plain", "func"])]
+    lambda tier: ([dict(n=1, kinds=("fin", "+inf", "-inf"), n_cons=1), dict(n=2, n_cons=2), dict(n=2, kinds=("fin", "+inf"), n_cons=1), dict(n=3, n_cons=1, vkinds=["plain", "func"]),
+                   dict(n=3, n_cons=2, vkinds=["plain"], huge_ints=True, sample_only=True), dict(n=4, n_cons=1, vkinds=["plain"], huge_ints=True, sample_only=True)]
                   + ([dict(n=3, n_cons=2, n_other=2), dict(n=2, kinds=("fin", "+inf", "-inf"), n_cons=2)] if tier == "thorough" else [])),
     mode="B", must_cover=["post"],
     assumptions=["find_optimal: a local cost that adds +inf and -inf terms is undefined and excluded"],
@@ -225,9 +232,9 @@ Contract(
 
 # ---------------------------------------------------------------- join (C12)
 
-def _mk_operand(env, name, vs, kind, kinds):
+def _mk_operand(env, name, vs, kind, kinds, dtype=None):
     if kind == "matrix":
-        rel, cells = fx.matrix_relation(env, name, vs, kinds)
+        rel, cells = fx.matrix_relation(env, name, vs, kinds, dtype=dtype)
         return rel, (lambda a: cells[tuple(a[v.name] for v in vs)])
     rel, tab = fx.table_relation(env, name, vs, kinds)
     return rel, (lambda a: tab(**{v.name: a[v.name] for v in vs}))
@@ -261,8 +268,9 @@ def h_join(env):
     k1 = env.choice("kind1", p.get("opkinds", ["matrix", "func"]))
     k2 = env.choice("kind2", p.get("opkinds", ["matrix", "func"]))
     kinds = p.get("kinds", ("fin",))
-    u1, f1 = _mk_operand(env, "u1", s1, k1, kinds)
-    u2, f2 = _mk_operand(env, "u2", s2, k2, kinds)
+    dtype = env.choice("table-dtype", p["int_tables"]) if p.get("int_tables") and not env.symbolic else None
+    u1, f1 = _mk_operand(env, "u1", s1, k1, kinds, dtype)
+    u2, f2 = _mk_operand(env, "u2", s2, k2, kinds, dtype)
     r = env.call(R.join, u1, u2)
     if isinstance(r, Raised):
         env.prove("join.no-raise", False, detail=lambda: r.tb)
@@ -281,7 +289,10 @@ def h_join(env):
         if isinstance(got, Raised):
             env.prove("join.result-evaluates", False, detail=lambda: got.tb)
             return
-        env.prove("join.value-is-sum-on-every-assignment", eq(got, exp1 + exp2), detail=lambda: (a, got, exp1, exp2))
+        exp = exp1 + exp2
+        if dtype is not None and abs(exp) > 2 ** 53:
+            exp = float(exp)     # the joined table holds doubles: the mathematical sum of two integers, correctly rounded
+        env.prove("join.value-is-sum-on-every-assignment", eq(got, exp), detail=lambda: (a, got, exp1, exp2))
     # frame: the operands are not modified by the join (DPOP joins the same constraint into several tables)
     _operand_unchanged(env, "join.frame.first-operand-unchanged", u1, s1, f1)
     _operand_unchanged(env, "join.frame.second-operand-unchanged", u2, s2, f2)
@@ -296,6 +307,10 @@ _JOIN_SHAPES = [
     # operands of three variables whose order is a rotation of the joined scope's (an axis permutation that is not its own inverse)
     dict(vars=dict(a=2, b=2, c=2), u1=["c"], u2=["a", "b", "c"], opkinds=["matrix"]),
     dict(vars=dict(a=2, b=3, c=2), u1=["b", "c", "a"], u2=["a", "b", "c"], opkinds=["matrix"], sample_only=True, sample_factor=2),
+    # tables given as integer-typed numpy arrays (np.int8 ... np.int64) with cells near the ends of the type's range: the joined
+    # value is the mathematical sum, not the sum in the operands' machine type
+    dict(vars=dict(x=2, y=2), u1=["x", "y"], u2=["y"], opkinds=["matrix"], int_tables=["int8", "int16", "int32", "int64"], sample_only=True),
+    dict(vars=dict(x=2, y=2), u1=["x"], u2=["y"], opkinds=["matrix"], int_tables=["int8", "int64"], sample_only=True),
 ]
 _JOIN_SHAPES_T = [
     dict(vars=dict(x=2, y=2, z=2, w=2), u1=["x", "y", "z"], u2=["w", "y"]),
